@@ -970,3 +970,86 @@ theorem coordIndex_spec (k : Int) : coordIndex k = if k < 1 then .error .value e
   by_cases h : k < 1 <;> simp [h]
 
 end HdVerif.Ann
+
+namespace HdVerif.Ann
+open HdVerif HdVerif.Gen
+
+/-! ### numbered groups, measurement matrix -/
+
+/-- groups numbered `off+1, off+2, …` in order (what the SOP class constructor enforces with `off = 0`) -/
+def numberedFrom (off : Int) (gs : List GroupInfo) : Prop :=
+  ∀ i (h : i < gs.length), gs[i].number = off + (i : Int) + 1
+
+theorem numberedFrom_tail (off : Int) (g : GroupInfo) (rest : List GroupInfo) (h : numberedFrom off (g :: rest)) :
+    numberedFrom (off + 1) rest := by
+  intro i hi
+  have := h (i + 1) (by simp; omega)
+  simp only [List.getElem_cons_succ] at this
+  rw [this]; push_cast; omega
+
+theorem filter_number_none (gs : List GroupInfo) : ∀ (off target : Int), numberedFrom off gs → target ≤ off →
+    gs.filter (fun g => g.number = target) = [] := by
+  induction gs with
+  | nil => intro _ _ _ _; rfl
+  | cons g rest ih =>
+    intro off target h ht
+    have hg : g.number = off + 1 := by
+      have := h 0 (by simp)
+      simp only [List.getElem_cons_zero] at this
+      rw [this]; simp
+    have hne : ¬ (g.number = target) := by omega
+    simp only [List.filter_cons, hne, decide_false, Bool.false_eq_true, if_false]
+    exact ih (off + 1) target (numberedFrom_tail off g rest h) (by omega)
+
+theorem filter_number_unique (gs : List GroupInfo) : ∀ (off : Int) (k : Nat) (hk : k < gs.length), numberedFrom off gs →
+    gs.filter (fun g => g.number = off + (k : Int) + 1) = [gs[k]] := by
+  induction gs with
+  | nil => intro _ k hk; simp at hk
+  | cons g rest ih =>
+    intro off k hk h
+    have hg : g.number = off + 1 := by
+      have := h 0 (by simp)
+      simp only [List.getElem_cons_zero] at this
+      rw [this]; simp
+    cases k with
+    | zero =>
+      have hm : g.number = off + ((0 : Nat) : Int) + 1 := by simpa using hg
+      simp only [List.filter_cons, hm, decide_true, if_true, List.getElem_cons_zero]
+      rw [filter_number_none rest (off + 1) _ (numberedFrom_tail off g rest h) (by simp)]
+    | succ k' =>
+      have hne : ¬ (g.number = off + ((k' + 1 : Nat) : Int) + 1) := by rw [hg]; push_cast; omega
+      simp only [List.filter_cons, hne, decide_false, Bool.false_eq_true, if_false, List.getElem_cons_succ]
+      have := ih (off + 1) k' (by simpa using hk) (numberedFrom_tail off g rest h)
+      have e : off + 1 + (k' : Int) + 1 = off + ((k' + 1 : Nat) : Int) + 1 := by push_cast; omega
+      rw [e] at this
+      exact this
+
+/-- measurement vectors of matching names, in order, each read back -/
+theorem getMeasurements_spec {β κ : Type} (same : κ → κ → Bool) (cast32 : β → β) (items : List (κ × List (Option β))) (n : Nat)
+    (hn : ∀ it ∈ items, it.2.length = n) (name : Option κ) :
+    getMeasurements same (items.map (fun it => (it.1, encodeMeas cast32 it.2))) n name =
+      .ok ((items.filter (fun it => nameMatches same name it.1)).map (fun it => it.2.map (Option.map cast32))) := by
+  unfold getMeasurements
+  rw [List.filter_map]
+  have hcomp : ((fun (it : κ × MeasEnc β) => nameMatches same name it.1) ∘
+      fun (it : κ × List (Option β)) => (it.1, encodeMeas cast32 it.2)) = (fun it => nameMatches same name it.1) := by
+    funext it; rfl
+  rw [hcomp]
+  generalize hsel : items.filter (fun it => nameMatches same name it.1) = sel
+  have hsel_n : ∀ it ∈ sel, it.2.length = n := by
+    intro it hit
+    rw [← hsel] at hit
+    exact hn it (List.mem_filter.mp hit).1
+  clear hsel
+  induction sel with
+  | nil => rfl
+  | cons it rest ih =>
+    have h1 := hsel_n it (by simp)
+    have hv := getValues_encodeMeas cast32 it.2
+    rw [h1] at hv
+    simp only [List.map_cons, mapE, hv]
+    have := ih (fun x hx => hsel_n x (by simp [hx]))
+    simp only [this]
+
+
+end HdVerif.Ann
